@@ -585,8 +585,12 @@ class Frame(object):
         if n.id in ('True', 'False', 'None'):
             return {'True': True, 'False': False, 'None': None}[n.id]
         if n.id in ('range', 'len', 'isinstance', 'print', 'type', 'int', 'list', 'dict', 'set', 'str', 'float', 'ValueError',
-                    'enumerate', 'zip', 'sorted', 'min', 'max', 'abs', 'tuple', 'bool', 'hex'):
+                    'enumerate', 'zip', 'sorted', 'min', 'max', 'abs', 'tuple', 'bool', 'hex', 'reversed', 'map', 'filter', 'sum', 'any', 'all'):
             return Ctor('builtin.' + n.id)
+        import builtins as _b
+        if hasattr(_b, n.id):
+            # a python builtin this interpreter does not model: the analysis cannot go on (not a NameError of the analysed code)
+            raise LiftUnknown('builtin %s' % n.id)
         raise LiftError('NameError', "name '%s' is not defined" % n.id, n)
 
     def ev(self, n):
@@ -964,6 +968,13 @@ class Frame(object):
                 if not isinstance(a, int):
                     raise LiftUnknown('range of non-int')
             return list(range(*args))
+        if name == 'builtin.reversed':
+            return list(reversed(list(args[0])))
+        if name == 'builtin.sum':
+            vals = list(args[0])
+            if all(isinstance(v, int) for v in vals):
+                return sum(vals)
+            raise LiftUnknown('sum over symbolic values')
         if name == 'builtin.enumerate':
             start = args[1] if len(args) > 1 else kwargs.get('start', 0)
             return [(i + start, v) for i, v in enumerate(list(args[0]))]
